@@ -103,6 +103,34 @@ Theorem C10_outcomes_stable : forall c st t e st' x o,
   gstep c st t e = Some st' -> outc st x = Some o -> outc st' x = Some o.
 Proof. intros c st t e st' x o H. exact (step_mono c st t e st' H x o). Qed.
 
+(* ---- cancel_and_await(task) (_internal/_asyncio.py), used to stop helper tasks ---- *)
+
+(* a done task: returns at once; otherwise the task's cancellation is requested -- also when it is
+   already being cancelled -- and the call blocks on exactly that task *)
+Theorem C10_cancel_and_await_call : forall c st t tid w tg st',
+  gstep c st t (GCawCall tid w tg) = Some st' ->
+  (is_done st tid = true /\ g_fin st' w = Some (mkF KStop (caw_actor w) [] [] WOk) /\ g_wait st' w = g_wait st w) \/
+  (is_done st tid = false /\ g_creq st' tid = S (g_creq st tid) /\
+   g_wait st' w = Some (mkW KStop (caw_actor w) [tid] [] [tid]) /\ g_set st' (caw_actor w) = []).
+Proof. exact caw_call. Qed.
+
+(* it resumes only when the task is done, and raises exactly the task's non-cancellation error
+   (C10_stop applies to the returned call as to any stop()) *)
+Theorem C10_cancel_and_await_returns : forall st w a tid st',
+  g_wait st w = Some (mkW KStop a [tid] [] [tid]) -> g_set st a = [] -> wake st w = Some st' ->
+  is_done st tid = true /\
+  g_fin st' w = Some (mkF KStop a [tid] [tid] (result_of KStop (errs_of st [tid]))) /\ g_wait st' w = None.
+Proof. exact caw_wake. Qed.
+
+(* `async with service:` -- __aexit__ is stop(): the model accepts the end of the statement only
+   when every task of the set at the exit of the body is done *)
+Theorem C10_async_with_exit : forall c st t a l st',
+  gstep c st t (GWithDone a l) = Some st' -> st' = st /\ forall x, In x l -> is_done st x = true.
+Proof.
+  intros c st t a l st'. cbn. destruct (forallb (is_done st) l) eqn:E; [|discriminate].
+  intros H. injection H as <-. split; [reflexivity|]. apply forallb_forall. exact E.
+Qed.
+
 (* ---- run ---- *)
 
 (* run() has returned only if every one of its wait() calls has returned ... *)
@@ -153,6 +181,9 @@ Print Assumptions C10_start_idempotent.
 Print Assumptions C10_stop_cancels.
 Print Assumptions C10_stop.
 Print Assumptions C10_outcomes_stable.
+Print Assumptions C10_cancel_and_await_call.
+Print Assumptions C10_cancel_and_await_returns.
+Print Assumptions C10_async_with_exit.
 Print Assumptions C10_run_returns.
 Print Assumptions C10_run_waits_every_actor.
 Print Assumptions C10_run_progress.
